@@ -40,7 +40,7 @@ fn fault_name(f: &Fault) -> &'static str {
 
 /// Plants permission faults. Links are never placed inside, or pointed through, restricted
 /// directories (keeps the fault kinds independent; a sampling restriction).
-fn plant_modes(g: &mut Gen, tree: &mut Vec<Node>, keep_clear: &[String]) -> Vec<String> {
+pub fn plant_modes(g: &mut Gen, tree: &mut Vec<Node>, keep_clear: &[String]) -> Vec<String> {
     let model = Model::from_tree(tree).unwrap();
     let link_touch: Vec<String> = tree
         .iter()
@@ -226,7 +226,7 @@ pub fn generate(rng: &mut Rng, tier: Tier, stats: &mut GenStats) -> Scenario {
                 source: Source::Glob { expr: e.clone(), rooted: r },
                 ..w.clone()
             };
-            if prefix_touches_link(&model, &w.base, &e, r) || crate::props::c15::cycle_above_prefix(&model, &cand) {
+            if prefix_touches_link(&model, &w.base, &e, r) || cycle_above_prefix(&model, &cand) {
                 stats.restricted += 1;
                 continue;
             }
